@@ -232,6 +232,11 @@ def install(E, bb):
                 return I.SBound(st, obj, B)
             if isinstance(st, classmethod):
                 return I.SBound(st.__func__, I.T(Val.VClass(c)), B)
+            gen = getattr(E, 'gen_class_attr', None)
+            if gen is not None:
+                r = gen(c, name)       # a reflection table read through an instance
+                if r is not None:
+                    return I.T(r)
         return dyn_getattr(obj, I.C(name), None)
     E.symbolic_object_getattr = symbolic_object_getattr
 
